@@ -1,73 +1,82 @@
-(* C15 -- functions whose extracted effect skeleton is NOT proved free of argument mutation: the may-alias
-   abstraction (weak updates inside branches, parameters re-bound to fresh results, in-place arithmetic on
-   intermediates that were assigned from a parameter on another path) is too coarse for them.  They are covered
+(* C15 -- functions whose extracted effect skeleton is NOT proved free of argument mutation (their checked summary lists a
+   possibly written parameter): either the may-alias abstraction is too coarse for the function itself (run-time alias
+   tests such as out.data_ptr() == data.data_ptr() or "out is tensor", containers rebuilt with list(...), item assignment
+   into dictionaries of fresh tensors) or it calls such a function with one of its arguments (summaries are
+   interprocedural: a possibly-writing callee makes its callers possibly-writing).  They are covered
    by the runtime sweep of tools/impl/c15_impl.py only.  Everything else in Gen/MutSkeleton.v is proved clean by
    Props/C15.v; a function may only be added here with a reason. *)
 From Coq Require Import List String.
 Import ListNotations.
 Local Open Scope string_scope.
 Definition heap_unproven : list string := [
-  "deepali/core/bspline.py:subdivide_cubic_bspline";
+  "deepali/core/bspline.py:evaluate_cubic_bspline";
+  "deepali/core/flow.py:compose_svfs";
+  "deepali/core/flow.py:curl";
   "deepali/core/flow.py:divergence";
   "deepali/core/flow.py:divergence_free_flow";
   "deepali/core/flow.py:flow_derivatives";
   "deepali/core/flow.py:jacobian_det";
   "deepali/core/flow.py:jacobian_dict";
-  "deepali/core/functional.py:as_one_hot_tensor";
-  "deepali/core/functional.py:batched_index_select";
-  "deepali/core/functional.py:circle_image";
+  "deepali/core/flow.py:jacobian_matrix";
+  "deepali/core/flow.py:lie_bracket";
+  "deepali/core/flow.py:logv";
+  "deepali/core/flow.py:sample_flow";
+  "deepali/core/flow.py:warp_image";
+  "deepali/core/flow.py:warp_points";
+  "deepali/core/functional.py:compose_svfs";
   "deepali/core/functional.py:conv";
-  "deepali/core/functional.py:conv1d";
+  "deepali/core/functional.py:curl";
   "deepali/core/functional.py:divergence";
   "deepali/core/functional.py:divergence_free_flow";
   "deepali/core/functional.py:downsample";
-  "deepali/core/functional.py:fill_border";
+  "deepali/core/functional.py:evaluate_cubic_bspline";
   "deepali/core/functional.py:flow_derivatives";
   "deepali/core/functional.py:gaussian_pyramid";
-  "deepali/core/functional.py:grid_image";
+  "deepali/core/functional.py:grid_resample";
   "deepali/core/functional.py:grid_sample";
+  "deepali/core/functional.py:grid_sample_mask";
   "deepali/core/functional.py:homogeneous_matrix";
-  "deepali/core/functional.py:homogeneous_transform";
   "deepali/core/functional.py:jacobian_det";
   "deepali/core/functional.py:jacobian_dict";
-  "deepali/core/functional.py:multinomial";
-  "deepali/core/functional.py:ones_image";
+  "deepali/core/functional.py:jacobian_matrix";
+  "deepali/core/functional.py:lie_bracket";
+  "deepali/core/functional.py:logv";
   "deepali/core/functional.py:round_decimals";
+  "deepali/core/functional.py:sample_flow";
+  "deepali/core/functional.py:sample_image";
   "deepali/core/functional.py:spatial_derivatives";
-  "deepali/core/functional.py:subdivide_cubic_bspline";
   "deepali/core/functional.py:tensordot";
+  "deepali/core/functional.py:transform_points";
   "deepali/core/functional.py:upsample";
-  "deepali/core/functional.py:zeros_image";
-  "deepali/core/image.py:circle_image";
+  "deepali/core/functional.py:warp_image";
+  "deepali/core/functional.py:warp_points";
   "deepali/core/image.py:conv";
-  "deepali/core/image.py:conv1d";
   "deepali/core/image.py:downsample";
-  "deepali/core/image.py:fill_border";
   "deepali/core/image.py:gaussian_pyramid";
-  "deepali/core/image.py:grid_image";
+  "deepali/core/image.py:grid_resample";
   "deepali/core/image.py:grid_sample";
-  "deepali/core/image.py:ones_image";
+  "deepali/core/image.py:grid_sample_mask";
+  "deepali/core/image.py:sample_image";
   "deepali/core/image.py:spatial_derivatives";
   "deepali/core/image.py:upsample";
-  "deepali/core/image.py:zeros_image";
   "deepali/core/linalg.py:homogeneous_matrix";
-  "deepali/core/linalg.py:homogeneous_transform";
   "deepali/core/linalg.py:tensordot";
   "deepali/core/math.py:round_decimals";
-  "deepali/core/random.py:multinomial";
-  "deepali/core/tensor.py:as_one_hot_tensor";
-  "deepali/core/tensor.py:batched_index_select";
+  "deepali/core/pointset.py:transform_points";
   "deepali/losses/functional.py:be_loss";
   "deepali/losses/functional.py:bending_energy";
   "deepali/losses/functional.py:bending_loss";
-  "deepali/losses/functional.py:dice_score";
+  "deepali/losses/functional.py:bspline_be_loss";
+  "deepali/losses/functional.py:bspline_bending_energy";
+  "deepali/losses/functional.py:bspline_bending_loss";
+  "deepali/losses/functional.py:curvature_loss";
   "deepali/losses/functional.py:diffusion_loss";
   "deepali/losses/functional.py:divergence_loss";
-  "deepali/losses/functional.py:elementwise_loss";
+  "deepali/losses/functional.py:elasticity_loss";
   "deepali/losses/functional.py:grad_loss";
-  "deepali/losses/functional.py:ssd_loss";
-  "deepali/losses/functional.py:tversky_index";
-  "deepali/losses/functional.py:inverse_consistency_loss"].
+  "deepali/losses/functional.py:inverse_consistency_loss";
+  "deepali/losses/functional.py:total_variation_loss";
+  "deepali/losses/functional.py:tv_loss"].
 
 (* ---- what Model/ObjGraph.v transcribes ----
    pin_copied_containers -> shallow_copy: _buffers (and _modules) dicts copied, _parameters dict SHARED
